@@ -128,6 +128,12 @@ class World:
             # additional documented inputs: a velocity / Lorentz factor field
             if k == "tracer":
                 d["tracer"] = 0.5 + 0.25 * np.sin(fd.x + 2 * fd.y - fd.z)
+            if k == "momentum":
+                # momentum-constraint components as simulation output
+                # (ML_BSSN M1..M3 read from Einstein Toolkit files)
+                for j, c in enumerate("xyz"):
+                    d["Momentum" + c] = 0.01 * (j + 1) * np.cos(
+                        fd.x * (1 + j) - 0.5 * fd.y + 0.25 * j * fd.z)
             if k == "vel":
                 s = 0.3
                 nrm = np.sqrt(ex["gamma"][0, 0])
@@ -137,7 +143,10 @@ class World:
 
     def kwargs(self, cache=True):
         c = self.cfg
-        kw = dict(verbose=False, Lambda=c["Lambda"], vacuum=c["vacuum"],
+        # the instance under test is sometimes created with the default
+        # verbose=True (its output is swallowed); fresh instances are quiet
+        kw = dict(verbose=bool(cache and c.get("verbose")),
+                  Lambda=c["Lambda"], vacuum=c["vacuum"],
                   tetrad=c["tetrad"], lmax=c.get("lmax", 2))
         if c.get("extract_radii") is not None:
             kw["extract_radii"] = c["extract_radii"]
@@ -150,6 +159,14 @@ class World:
 
     def new_rel(self, cache=True, order=None, freeze="freeze_data",
                 readonly=False):
+        if cache and self.cfg.get("verbose"):
+            import contextlib
+            import io
+            with contextlib.redirect_stdout(io.StringIO()):
+                return self._new_rel(cache, order, freeze, readonly)
+        return self._new_rel(cache, order, freeze, readonly)
+
+    def _new_rel(self, cache, order, freeze, readonly):
         fd = self.fd(order)
         data, ex = self.inputs(fd)
         rel = aurel.AurelCore(fd, **self.kwargs(cache))
@@ -392,9 +409,13 @@ def strategies():
                    extra_inputs=((["vel"] if matter == "Tdown4"
                                   and draw(st.booleans()) else [])
                                  + (["tracer"] if draw(st.booleans())
-                                    else [])),
+                                    else [])
+                                 + (["momentum"]
+                                    if draw(st.integers(0, 5)) == 0 else [])),
                    freeze=draw(st.sampled_from(["freeze_data", "load_data",
                                                 "hand_then_load_data"])))
+        if draw(st.integers(0, 7)) == 0:
+            cfg["verbose"] = True
         if draw(st.integers(0, 3)) == 0:
             # non-default centre of the extraction spheres / horizon finder
             cfg["center"] = [draw(st.sampled_from([0.0, 1.0, -2.0, 0.5])) * x
@@ -576,7 +597,13 @@ class Run:
                     d in rel.data and d not in self.inputs for d in deps):
                 self.operand_reuse += 1
         try:
-            a = ("ok", self.world.apply(rel, self.fd, op))
+            if self.cfg.get("verbose"):
+                import contextlib
+                import io
+                with contextlib.redirect_stdout(io.StringIO()):
+                    a = ("ok", self.world.apply(rel, self.fd, op))
+            else:
+                a = ("ok", self.world.apply(rel, self.fd, op))
         except RecursionError as e:
             a = ("raises", type(e).__name__, str(e)[:200])
         except Exception as e:  # noqa: BLE001
@@ -617,6 +644,14 @@ class Run:
 
     # -- C01 ---------------------------------------------------------------
     def check_value(self, op, nm, a, fails):
+        if op.get("key") == "Momentumup3" and a[0] == "ok" and all(
+                "Momentum" + c in self.inputs for c in "xyz"):
+            # supplied components are the vector (no recomputation)
+            self.cls("Momentumup3-from-supplied-components")
+            want = np.array([self.inputs["Momentum" + c] for c in "xyz"])
+            if not np.array_equal(np.asarray(a[1]), want):
+                fails.append(("value:Momentumup3:not-the-supplied-components",
+                              {}))
         b = self.world.fresh(op)
         if a[0] == "raises" or b[0] == "raises":
             if a[0] == b[0] and a[1] == b[1]:
